@@ -3,6 +3,7 @@ package props
 import (
 	"fmt"
 	"go/ast"
+	"go/token"
 	"strings"
 
 	"octoverif/core"
@@ -71,5 +72,81 @@ func checkRetractionFlags(c *core.Ctx, rule string) {
 			c.Decide(strings.Contains(val, "left.Schema.NoRetractions") && strings.Contains(val, "right.Schema.NoRetractions") || val == "false", rule, key, fn.Decl.Pos(), 2, "retraction-free iff both inputs are",
 				fmt.Sprintf("a join that only passes on its inputs' retractions is retraction-free iff both inputs are; it declares %s", val))
 		}
+	}
+}
+
+// checkDeterministicFunctions (NONDET): a retraction cancels the record it retracts only if every operator computes
+// the same values for both. Expressions are re-evaluated for the retraction, so a function whose result is not a
+// function of its arguments (the wall clock, a random source) yields a retraction that matches nothing: the table
+// printer panics ("received retraction before value"), joins slice out of range, GROUP BY keeps phantom groups.
+func checkDeterministicFunctions(c *core.Ctx, rule string) {
+	t := loadFunctions(c, rule)
+	if t == nil {
+		return
+	}
+	n := 0
+	for _, d := range t.descs {
+		if d.Function == nil {
+			continue
+		}
+		n++
+		src := ""
+		ast.Inspect(d.Function.Body, func(nd ast.Node) bool {
+			if call, ok := nd.(*ast.CallExpr); ok {
+				switch callee := c.Prog.CalleeName(t.info, call); {
+				case callee == "time.Now", strings.HasPrefix(callee, "math/rand."), strings.HasPrefix(callee, "crypto/rand."):
+					src = callee
+				}
+			}
+			return true
+		})
+		if src == "" {
+			continue
+		}
+		c.Bad(rule, "functions."+d.Key(), d.Function.Pos(), 1,
+			fmt.Sprintf("%s() reads %s each time it is evaluated; the expression is evaluated again for the retraction of a record, so the retraction carries other values than the record it should cancel", d.Name, src))
+	}
+	c.OK(rule, "function library", 0, n, fmt.Sprintf("%d function bodies scanned for wall-clock and random sources", n))
+	c.Floor(rule, 1, "function bodies scanned")
+}
+
+// checkJoinNullKeyDepth (NULLDEEP): an equality never matches NULL. The joins test each key part for NULL by its
+// TypeID only; a key part may be a tuple (row-value equality, `ON (a.k, a.id) = (b.k, b.id)`), whose NULL components
+// are then compared by Value.Compare, for which NULL equals NULL.
+func checkJoinNullKeyDepth(c *core.Ctx, rule string) {
+	p := c.Prog
+	cmp := p.Func("octosql", "Value.Compare")
+	if cmp == nil {
+		c.Unknown(rule, "octosql.Value.Compare", 0, "anchor not found")
+		return
+	}
+	// does Compare look inside tuples, and does it call NULL equal to NULL?
+	recursesIntoTuples := strings.Contains(core.FullStr(cmp.Decl.Body), ".Tuple[i].Compare(") || strings.Contains(core.FullStr(cmp.Decl.Body), "Tuple[i]")
+	for _, typ := range []string{"StreamJoin", "OuterJoin"} {
+		fn := p.Func("execution/nodes", "(*"+typ+").receiveRecord")
+		key := "execution/nodes.(*" + typ + ").receiveRecord/NULL inside a composite key part"
+		if fn == nil {
+			c.Unknown(rule, key, 0, "anchor not found")
+			continue
+		}
+		c.SawFunc("execution/nodes.(*" + typ + ").receiveRecord")
+		shallow, deep := false, false
+		var pos token.Pos
+		ast.Inspect(fn.Decl.Body, func(n ast.Node) bool {
+			switch v := n.(type) {
+			case *ast.BinaryExpr:
+				if s := core.ExprStr(v); strings.HasSuffix(s, ".TypeID == octosql.TypeIDNull") && strings.HasPrefix(s, "key[") {
+					shallow = true
+					pos = v.Pos()
+				}
+			case *ast.CallExpr:
+				if strings.Contains(strings.ToLower(core.ExprStr(v.Fun)), "null") && len(v.Args) >= 1 && strings.HasPrefix(core.ExprStr(v.Args[0]), "key") {
+					deep = true
+				}
+			}
+			return true
+		})
+		c.Decide(!(shallow && recursesIntoTuples) || deep, rule, key, pos, 1, "NULL components of composite key parts do not match",
+			"the join tests a key part for NULL by its TypeID only, while a key part can be a tuple whose components Value.Compare compares with NULL equal to NULL: `ON (a.k, a.id) = (b.k, b.id - 9)` pairs the row with NULL k of one side with the row with NULL k of the other, and (NULL,3) = (NULL,3) is true")
 	}
 }
